@@ -279,6 +279,7 @@ let parse_e2e (o : string) : e2e_op =
   | 'Q' -> XBurst (List.map (fun c -> c = 'R') (List.init (String.length rest) (String.get rest)))
   | 'E' -> XEmfile (nat_of_int (int_of_string rest))
   | '+' -> XAdvance (n_of_int (int_of_string rest))
+  | 'D' -> XDie
   | 'K' -> XKill (nat_of_int (int_of_string rest))
   | 'J' -> (match String.split_on_char ':' rest with
       | [a; b] -> XKillConnect (nat_of_int (int_of_string a), nat_of_int (int_of_string b))
@@ -436,12 +437,18 @@ let bldgen (line : string) : string =
        && List.exists own_call (List.init nl (fun i -> i)) then add 2 `X;
     if has 'x' && !blocked && List.exists own_call (List.init nl (fun i -> i))
        && List.exists (fun wk -> wk.w_open && wk.w_queue <> []) st.ws && not !armed then add 2 `Arm;
+    (* the single worker dies in a readiness check — whatever its load; not inside a back-pressure episode (it asks nothing then),
+       not while the accept loop backs off or is paused with connections waiting (the fault is discovered by the next dispatch) *)
+    if has 'd' && w = 1 && not !blocked && not backoff && not st.paused
+       && List.for_all (fun g -> match nth_error st.ws (nat_of_int g) with Some wk -> wk.w_open | None -> false) (List.map int_of_nat st.handles)
+       && snd !acc > 0 then add 2 `D;
     if backoff then add 4 `T;
     (* real time passes between the ops of the implementation run: the 500 ms back-off is left at once *)
     (* ... except for one Pause, whose effect does not depend on when the deadline passes: nothing is observable until Resume *)
     (match (if backoff then (if has 'c' && not st.paused && rand 4 = 0 then `P else `T) else pick_from !c) with
      | `C -> emit (Printf.sprintf "c%d" (rand nl))
      | `A -> emit (Printf.sprintf "A%d" (rand nl))
+     | `D -> emit "D"
      | `Block -> emit "B" | `Unblock -> (armed := false; emit "b")
      | `X -> let toks = List.filter own_call (List.init nl (fun i -> i)) in
        emit (Printf.sprintf "%s%d" (if rand 3 = 0 then "Y" else "X") (pick_from toks))
